@@ -278,6 +278,17 @@ def processLine (line : String) : Findings :=
     match l with
     | [] => #[]
     | op :: args =>
+      -- a panic of the real crate inside an operation whose contract has no panic is a violation in itself
+      let panicChan : Option String := match op with
+        | "POS" => some "moves" | "LEGAL" => some "legal" | "MAKE" => some "make" | "NULL" => some "null"
+        | "GEN" => some "gen" | "GAME" => some "game" | "SYM" => some "sym" | "BFEN" => some "bfen"
+        | "TBL" => some "tbl" | "ROOK" | "BISHOP" => some "slider" | "ROOKBMI" | "BISHOPBMI" => some "bmi"
+        | "BB" | "BBITER" | "BBCNT" | "BBTOSQ" | "BBFROMSQ" | "BBREV" | "BBSET" => some "bb"
+        | "SHOWM" => some "showm" | "SHOWSQ" => some "showsq" | "VAR" => some "var"
+        | _ => none
+      if panicChan.isSome ∧ (rhs.splitOn "PANIC").length > 1 then
+        #[fO (panicChan.getD "panic") s!"the library panicked: {rhs.take 200}"]
+      else
       match op with
       | "POS" => opPOS args r
       | "LEGAL" => opLEGAL args r
